@@ -220,7 +220,9 @@ def copy_rule(chk):
         chk.require("C08.R4", site, (copies.get("bias") == [f"{modp}.bias"]) == has_bias, f"from_module copies the bias iff the source has one (path bias={has_bias}, copy={copies.get('bias')})", "QModuleMixin.from_module", "bias copied", "a module with bias: the twin keeps a random bias")
         chk.require("C08.R4", site, nograd == "torch.no_grad()" and not others, f"copies happen under torch.no_grad() and nothing else touches the parameters (other calls: {others})", "QModuleMixin.from_module", "no_grad / extra calls", "quantize(): autograd error on leaf parameters, or parameters altered")
         chk.require("C08.R4", site, U(e) == f"{created}.to({modp}.weight.device)", f"from_module returns the twin moved to the source device: `{U(e)[-50:]}`", "QModuleMixin.from_module", "device move", "a model on a non-default device: the twin is left where it was created")
-    chk.floor("C08.R4", n, 2, "from_module construction paths")
+    chk.floor("C08.R4", n, 1, "from_module construction paths")
+    bias_paths = [o for o in chk.obligations if o["rule"] == "C08.R4" and "copies the bias iff" in o["what"] and "path bias=True" in o["what"]]
+    chk.require("C08.R4", f"{mi.rel}:{fn.lineno}", bool(bias_paths), "from_module has a path that copies the bias of a module that has one", "QModuleMixin.from_module", "bias copied", "a module with bias: the twin keeps a random bias")
 
 
 def walk_rule(chk):
@@ -341,6 +343,9 @@ def forward_rule(chk, qm):
             chk.bad("C08.R6", f"{qci.mod.rel}:{qci.node.lineno}", qci.name, "qforward missing", f"{qci.name} has no qforward", "any forward")
             continue
         x = positional_params(qf)[1]
+        if tname != "torch.nn.LayerNorm":
+            has_q = any(path_facts(p).get("self.activation_qtype is None") is False and path_facts(p).get(f"isinstance({x}, QBytesTensor)") is False for p in paths_of(qf) if p.end[0] == "return")
+            chk.require("C08.R6", f"{qci.mod.rel}:{qf.lineno}", has_q, f"{qci.name}.qforward has a path for a float input with quantized activations (where the input is quantized with input_scale)", f"{qci.name}.qforward", "float input quantized", "a first layer with quantized activations fed a float tensor: the input is never quantized, so the integer/float8 matmul route and the calibrated input scale are not used")
         for p in paths_of(qf):
             if p.end[0] != "return":
                 continue
